@@ -1,7 +1,7 @@
 """Generator of *core* programs (the sub-language modelled by lean/HidVerif/Compiler/Core.lean):
 one @is_you(), int locals, + - * / %, unary + -, comparisons, and/or/not, declarations, assignments,
 op-assignments, write(int), writeln, character output, blocks, if/else, while, for, break, continue, return,
-user functions, try/undo with defeat calls, try/stop with !is_defeat()."""
+user functions, try/undo with defeat calls, try/stop with !is_defeat() / !truth_is_defeat() and calls of defeat functions."""
 import random
 
 
@@ -14,6 +14,7 @@ class G:
         self.loopvars = set()
         self.in_try = False       # inside a try body: defeat calls allowed, try not
         self.funcs = []           # (name, nparams, returns_int) callable from the code being generated
+        self.dfuncs = []          # defeat functions: callable only inside try/stop bodies and defeat functions
         self.in_handler = False   # inside an undo handler: plain statements only
         self.loops = []           # kinds ('for' / 'while') of the enclosing loops of the code being generated
 
@@ -102,8 +103,13 @@ class G:
             rhs = self.e(self.r.randint(0, 2))
             if op in ('/=', '%=') and self.r.random() > self.faults: rhs = self.r.choice(['1', '2', '3', '7', '(-3)'])
             return ['%s%s %s %s;' % (ind, self.r.choice(vs), op, rhs)]
-        if self.funcs and self.r.random() < 0.22:
-            name, npar, retint = self.r.choice(self.funcs)
+        usable = list(self.funcs)
+        force = False
+        if self.in_try in ('stop', 'dfn') and self.dfuncs and self.r.random() < 0.5:
+            usable = list(self.dfuncs)
+            force = self.r.random() < 0.4
+        if usable and (force or self.r.random() < 0.22):
+            name, npar, retint = self.r.choice(usable)
             args = ', '.join(self.e(self.r.randint(0, 2)) for _ in range(npar))
             k = self.r.random()
             if retint and k < 0.4:
@@ -127,8 +133,8 @@ class G:
             conds = [self.cmp(self.r.randint(0, 1)) for _ in range(self.r.randint(1, 3))]
             conds = [c for c in conds if c not in ('true', 'false')] or [self.r.choice(['true', 'false'])]
             return ['%s!truth_is_defeat(%s);' % (ind, ' or '.join(conds))]
-        if d > 0 and not self.in_try and not self.in_handler and self.r.random() < 0.12:
-            kind = 'stop' if self.r.random() < 0.5 else 'undo'
+        if d > 0 and not self.in_try and not self.in_handler and self.r.random() < (0.3 if self.dfuncs else 0.12):
+            kind = 'stop' if self.r.random() < (0.8 if self.dfuncs else 0.5) else 'undo'
             self.in_try = kind
             saved_loops = self.loops
             if kind == 'stop': self.loops = []     # no break/continue out of a try/stop body
@@ -172,15 +178,15 @@ class G:
             return ['%sif (%s) {' % (ind, self.cmp(1)), '%s    return%s;' % (ind, (' ' + self.e(1)) if getattr(self, 'ret_int', False) else ''), '%s}' % ind]
         return ['%swrite(\'!\');' % ind]
 
-    def function(self, idx):
+    def function(self, idx, dfn=False):
         npar = self.r.choice([0, 1, 1, 2, 3])
-        retint = self.r.random() < 0.6
-        name = 'fn%d' % idx
-        params = ['%s_a%d' % (name, i) for i in range(npar)]
+        retint = (not dfn) and self.r.random() < 0.6     # defeat functions of the core return nothing
+        name = ('!df%d' if dfn else 'fn%d') % idx
+        params = ['%s_a%d' % (name.lstrip('!'), i) for i in range(npar)]
         saved = (self.scopes, self.loopvars, self.in_try, self.in_handler)
         saved_loops, self.loops = self.loops, []
         self.ret_int = retint
-        self.scopes, self.loopvars, self.in_try, self.in_handler = [list(params)], set(), False, True   # plain statements only
+        self.scopes, self.loopvars, self.in_try, self.in_handler = [list(params)], set(), ('dfn' if dfn else False), (not dfn)   # plain statements only; defeat calls in defeat functions
         body = self.block(2, n=self.r.randint(1, 5))
         if retint:
             body.append('    return %s;' % self.e(self.r.randint(0, 3)))
@@ -211,6 +217,11 @@ class G:
                 sig, text = self.recursive()
                 texts.append(text)
                 self.funcs.append(sig)
+        if self.r.random() < 0.45:
+            for i in range(self.r.randint(1, 2)):
+                sig, text = self.function(i, dfn=True)
+                texts.append(text)
+                self.dfuncs.append(sig)
         self.prelude = ''.join(texts)
         # int parameters of the entry point: values come from the command line
         nparams = self.r.choice([0, 0, 1, 2, 3])
